@@ -413,6 +413,68 @@ func (u *Universe) genWriterOp(rng *rand.Rand, m *Model, repo string, o GenOpts)
 	}
 }
 
+// NestedDanglingOps is a scripted history prefix: two images, an untagged index over both, the first
+// image deleted again (legal: nothing is tagged yet), a tagged outer index over the inner one, and
+// then attempts to delete the second image and its layer. With immutable tags the last two must be
+// refused: the tag still reaches them through an index that has a dangling entry before them. The
+// variants put the dangling entry at other positions and reach the inner index through a subject.
+func (u *Universe) NestedDanglingOps(rng *rand.Rand, repo, tag string) []*Op {
+	u.nonce++
+	mkBlob := func(what string) []byte { return []byte(fmt.Sprintf("%s of nested history %d", what, u.nonce)) }
+	var ops []*Op
+	image := func(name string) (ocispec.Descriptor, []byte) {
+		cfg, layer := mkBlob(name+" config"), mkBlob(name+" layer")
+		for _, b := range [][]byte{cfg, layer} {
+			ops = append(ops, &Op{Kind: "PushBlob", Repo: repo, Data: b, Digest: Digest(b), Size: int64(len(b)), MediaType: "application/octet-stream"})
+		}
+		mf := ocispec.Manifest{MediaType: MTImage, Config: desc("application/vnd.oci.image.config.v1+json", cfg), Layers: []ocispec.Descriptor{desc("application/octet-stream", layer)}}
+		mf.SchemaVersion = 2
+		data, _ := json.Marshal(mf)
+		ops = append(ops, &Op{Kind: "PushManifest", Repo: repo, Data: data, MediaType: MTImage})
+		return desc(MTImage, data), layer
+	}
+	nImages := 2 + rng.IntN(2)
+	var children []ocispec.Descriptor
+	var layers [][]byte
+	for i := 0; i < nImages; i++ {
+		d, l := image(fmt.Sprintf("image %d", i))
+		children = append(children, d)
+		layers = append(layers, l)
+	}
+	inner := ocispec.Index{MediaType: MTIndex, Manifests: children}
+	inner.SchemaVersion = 2
+	innerData, _ := json.Marshal(inner)
+	ops = append(ops, &Op{Kind: "PushManifest", Repo: repo, Data: innerData, MediaType: MTIndex})
+	gone := rng.IntN(nImages) // the entry that will dangle
+	ops = append(ops, &Op{Kind: "DeleteManifest", Repo: repo, Digest: string(children[gone].Digest)})
+	innerDesc := desc(MTIndex, innerData)
+	var outerData []byte
+	if rng.IntN(3) == 0 {
+		// an image whose subject is the inner index
+		cfg := mkBlob("outer config")
+		ops = append(ops, &Op{Kind: "PushBlob", Repo: repo, Data: cfg, Digest: Digest(cfg), Size: int64(len(cfg)), MediaType: "application/octet-stream"})
+		mf := ocispec.Manifest{MediaType: MTImage, Config: desc("application/vnd.oci.image.config.v1+json", cfg), Subject: &innerDesc}
+		mf.SchemaVersion = 2
+		outerData, _ = json.Marshal(mf)
+		ops = append(ops, &Op{Kind: "PushManifest", Repo: repo, Tag: tag, Data: outerData, MediaType: MTImage})
+	} else {
+		outer := ocispec.Index{MediaType: MTIndex, Manifests: []ocispec.Descriptor{innerDesc}}
+		outer.SchemaVersion = 2
+		outerData, _ = json.Marshal(outer)
+		ops = append(ops, &Op{Kind: "PushManifest", Repo: repo, Tag: tag, Data: outerData, MediaType: MTIndex})
+	}
+	for i := 0; i < nImages; i++ {
+		if i == gone {
+			continue
+		}
+		ops = append(ops, &Op{Kind: "DeleteBlob", Repo: repo, Digest: Digest(layers[i])},
+			&Op{Kind: "DeleteManifest", Repo: repo, Digest: string(children[i].Digest)},
+			&Op{Kind: "GetManifest", Repo: repo, Digest: string(children[i].Digest)},
+			&Op{Kind: "GetBlob", Repo: repo, Digest: Digest(layers[i])})
+	}
+	return ops
+}
+
 // GenRead draws a read, resolve or listing.
 func (u *Universe) GenRead(rng *rand.Rand, m *Model, repo string, o GenOpts) *Op {
 	switch rng.IntN(13) {
